@@ -318,7 +318,10 @@ class AsyncTLSStreamTransport(AsyncStreamTransport):
             else:
                 # Flush any pending writes first
                 # (No checkpoint if there is nothing to flush: the result must not be lost by a cancellation.)
-                if self._write_bio.pending:
+                # (Never after a successful read: the decrypted bytes cannot be read again, so there must be no checkpoint
+                # between ssl_object.read() and the return. What is pending in the outgoing BIO is flushed by the task
+                # which produced it, or by the next operation.)
+                if self._write_bio.pending and ssl_object_method != self._ssl_object.read:
                     async with self.__transport_send_lock:
                         if self._write_bio.pending:
                             await self._transport.send_all(self._write_bio.read())
